@@ -74,14 +74,14 @@ func VH_C12_Loop() {
 	vx.IgnoreGo() // coroutineMetrics' goroutine only awaits the promise and decrements a gauge
 	vx.SchedulerMayRefuse()
 	m := metrics.New(prometheus.NewRegistry())
-	size := 2
+	size := 3
 	a := api.New(size, m)
 	io := &vhAIO{}
 	sc := &vhSched{}
 	s := &System{
 		api:          a,
 		aio:          io,
-		config:       &Config{SubmissionBatchSize: vx.Choose(2) + 1, CompletionBatchSize: 1, CoroutineMaxSize: 1, SignalTimeout: time.Second},
+		config:       &Config{SubmissionBatchSize: []int{1, 2, 4, 8}[vx.Choose(4)], CompletionBatchSize: 1, CoroutineMaxSize: 1, SignalTimeout: time.Second},
 		metrics:      m,
 		scheduler:    sc,
 		onRequest:    map[t_api.Kind]func(*t_api.Request, func(*t_api.Response, error)) gocoro.CoroutineFunc[*t_aio.Submission, *t_aio.Completion, any]{},
@@ -90,10 +90,10 @@ func VH_C12_Loop() {
 	}
 	s.AddOnRequest(t_api.Echo, vhEcho)
 
-	// k requests arrive before shutdown (the third is refused by the full queue)
-	k := vx.Choose(4)
-	d0, d1 := vx.String("d0"), vx.String("d1")
-	cls := []*vhClient{{}, {}, {}}
+	// k requests arrive before shutdown (the fourth is refused by the full queue)
+	k := vx.Choose(5)
+	d0, d1, d2 := vx.String("d0"), vx.String("d1"), vx.String("d2")
+	cls := []*vhClient{{}, {}, {}, {}}
 	if k > 0 {
 		vhReq(a, "r0", d0, cls[0])
 	}
@@ -101,11 +101,14 @@ func VH_C12_Loop() {
 		vhReq(a, "r1", d1, cls[1])
 	}
 	if k > 2 {
-		vhReq(a, "r2", "x", cls[2])
-		te, ok := cls[2].err.(*t_api.Error)
-		vx.Assert(cls[2].calls == 1 && ok && te.Code() == t_api.StatusAPISubmissionQueueFull, "C12:loop-overflow-refused-at-once")
+		vhReq(a, "r2", d2, cls[2])
 	}
-	vx.Assert(cls[0].calls == 0 && cls[1].calls == 0, "C12:loop-accepted-not-answered-before-a-tick")
+	if k > 3 {
+		vhReq(a, "r3", "x", cls[3])
+		te, ok := cls[3].err.(*t_api.Error)
+		vx.Assert(cls[3].calls == 1 && ok && te.Code() == t_api.StatusAPISubmissionQueueFull, "C12:loop-overflow-refused-at-once")
+	}
+	vx.Assert(cls[0].calls == 0 && cls[1].calls == 0 && cls[2].calls == 0, "C12:loop-accepted-not-answered-before-a-tick")
 
 	// optionally the loop has been running: one earlier iteration's signal may already have buffered a request
 	done := s.Shutdown()
@@ -120,7 +123,7 @@ func VH_C12_Loop() {
 	vx.Assert(io.shutdowns == 1 && sc.shutdowns == 1, "C12:loop-shuts-down-aio-and-scheduler-once")
 
 	// every accepted request has been answered exactly once, with its own response or a scheduler refusal
-	for i := 0; i < 2 && i < k; i++ {
+	for i := 0; i < 3 && i < k; i++ {
 		vx.Assert(cls[i].calls == 1, "C12:loop-accepted-request-answered-exactly-once-before-return")
 		if cls[i].err != nil {
 			vx.Reach("scheduler-refused")
@@ -128,14 +131,11 @@ func VH_C12_Loop() {
 			vx.Assert(ok && cls[i].res == nil && te.Code() == t_api.StatusSchedulerQueueFull, "C12:loop-scheduler-refusal-is-queue-full")
 		} else {
 			vx.Reach("answered")
-			want := d0
-			if i == 1 {
-				want = d1
-			}
+			want := []string{d0, d1, d2}[i]
 			vx.Assert(cls[i].res != nil && cls[i].res.Echo.Data == want, "C12:loop-response-belongs-to-its-request")
 		}
 	}
-	vx.Assert(late.calls == 1 && (k < 3 || cls[2].calls == 1), "C12:loop-refused-requests-not-answered-again")
+	vx.Assert(late.calls == 1 && (k < 4 || cls[3].calls == 1), "C12:loop-refused-requests-not-answered-again")
 	vx.Assert(a.Done(), "C12:loop-leaves-nothing-queued")
 }
 
